@@ -5,11 +5,19 @@ EXTENDS Checkpoint
 
 S(id, sf, em, lim, le, rg, dk) == [id |-> id, sf |-> sf, em |-> em, lim |-> lim, le |-> le, rg |-> rg, dk |-> dk]
 
-(* quick: a plain configuration and one with everything switched on (dump every 2nd generation, evaluation *)
-(* monitor, generation limit 2, strict ranges)                                                             *)
-QSettings == {S(1, 0, FALSE, None, None, FALSE, FALSE), S(2, 2, TRUE, 2, None, TRUE, FALSE)}
-(* thorough: additionally dump every generation + evaluation limit (DE kinds), and a later generation limit *)
-TSettings == QSettings \cup {S(3, 1, FALSE, None, 3 * NP, FALSE, TRUE), S(4, 3, FALSE, 3, None, FALSE, FALSE)}
+(* quick: a plain configuration and one with everything switched on: dump every generation, evaluation monitor,  *)
+(* strict ranges, generation limit 1 -- the run stops at a dump generation, is continued after a raised limit      *)
+QSettings == {S(1, 0, FALSE, None, None, FALSE, FALSE), S(2, 1, TRUE, 1, None, TRUE, FALSE)}
+(* thorough: additionally dump every generation + evaluation limit (DE kinds), a later generation limit with dump *)
+(* every 3rd, and dump every 2nd with the stop at generation 2                                                     *)
+(* (the two quick configurations are covered for all four kinds by MC_Checkpoint_thorough.cfg)                      *)
+TSettings == {S(3, 1, FALSE, None, 3 * NP, FALSE, TRUE), S(4, 3, FALSE, 3, None, FALSE, FALSE),
+              S(6, 2, TRUE, 2, None, TRUE, FALSE)}
+(* the stop: strict ranges, dump every 2nd generation, limit at generation 2 (a dump generation) / 1 (not one) *)
+WDiv == {S(2, 2, TRUE, 2, None, TRUE, FALSE)}
+WNonDiv == {S(5, 2, FALSE, 1, None, TRUE, FALSE)}
+WSettings == WDiv \cup WNonDiv
+PSettings == {S(1, 0, FALSE, None, None, FALSE, FALSE)}      \* plain only (witnesses that need no dump / limit)
 (* four instances (two created from the same snapshot, chains): the everything-on configuration only *)
 XSettings == {S(2, 2, TRUE, 2, None, TRUE, FALSE)}
 =============================================================================
